@@ -42,16 +42,10 @@ theorem reduce_card (cs : List Node) (limit q : Nat) (inPrev : Nat → Bool) (pe
   · unfold reduceN; simp only [hA, and_self, ↓reduceIte, List.length_append, quotaNodes_length]; omega
   · by_cases hB : quotaSize cs inPrev q < min limit cs.length
     · have hR : min limit cs.length - quotaSize cs inPrev q < (restSorted cs inPrev q).length := by omega
-      obtain ⟨hsel, h1, h2, h3, h4⟩ := reduceN_tie_branch cs limit q inPrev perms _ rfl _ rfl _ rfl _ rfl hB hR
+      obtain ⟨hsel, h1, h2⟩ := reduceN_tie_closed cs limit q inPrev perms _ rfl _ rfl _ rfl _ rfl hB hR
       rw [hsel]
       simp only [List.length_append, List.length_map, List.length_take, quotaNodes_length]
-      have := (hp ((hiOf ((restSorted cs inPrev q).getD (min limit cs.length - quotaSize cs inPrev q - 1) default).stake
-          (restSorted cs inPrev q)).length + (eqOf ((restSorted cs inPrev q).getD
-          (min limit cs.length - quotaSize cs inPrev q - 1) default).stake (restSorted cs inPrev q)).length -
-          codedStart (hiOf ((restSorted cs inPrev q).getD (min limit cs.length - quotaSize cs inPrev q - 1) default).stake
-          (restSorted cs inPrev q)).length (eqOf ((restSorted cs inPrev q).getD
-          (min limit cs.length - quotaSize cs inPrev q - 1) default).stake (restSorted cs inPrev q)).length)).length_eq
-      rw [this, List.length_range]
+      rw [(hp _).length_eq, List.length_range]
       omega
     · unfold reduceN; simp only [hA, hB, ↓reduceIte, quotaNodes_length]; omega
 
@@ -71,42 +65,38 @@ theorem reduce_subset_nodup (cs : List Node) (limit q : Nat) (inPrev : Nat → B
   · by_cases hB : quotaSize cs inPrev q < min limit cs.length
     · have hR : min limit cs.length - quotaSize cs inPrev q < (restSorted cs inPrev q).length := by
         have := quota_rest_length cs inPrev q; omega
-      obtain ⟨hsel, h1, h2, h3, h4⟩ := reduceN_tie_branch cs limit q inPrev perms _ rfl _ rfl _ rfl _ rfl hB hR
+      obtain ⟨hsel, h1, h2⟩ := reduceN_tie_closed cs limit q inPrev perms _ rfl _ rfl _ rfl _ rfl hB hR
       rw [hsel]
+      have hsorted : StakeSorted (restSorted cs inPrev q) := (restSorted_sorted cs inPrev q).stakeSorted
       generalize (restSorted cs inPrev q) = R at *
       generalize ((R.getD (min limit cs.length - quotaSize cs inPrev q - 1) default).stake) = t at *
-      generalize codedStart (hiOf t R).length (eqOf t R).length = s at *
-      generalize (hiOf t R).length + (eqOf t R).length = e at *
-      have htl : ((R.drop s).take (e - s)).length = e - s := by
-        rw [List.length_take, List.length_drop]; omega
-      have hpk := hp (e - s)
-      rw [← htl] at hpk
-      rw [show perms (e - s) = perms (((R.drop s).take (e - s)).length) by rw [htl]]
-      have hnT : ((R.drop s).take (e - s)).Nodup :=
-        (List.take_sublist _ _).nodup ((List.drop_sublist _ _).nodup hnR)
-      have hpm := picks_mem _ _ hpk (min limit cs.length - quotaSize cs inPrev q - s)
-      have hpn := picks_nodup _ _ hpk (min limit cs.length - quotaSize cs inPrev q - s) hnT
-      generalize (List.map (fun j => ((R.drop s).take (e - s)).getD j default)
-        (List.take (min limit cs.length - quotaSize cs inPrev q - s)
-          (perms ((R.drop s).take (e - s)).length))) = picks at *
-      have hpd : ∀ a ∈ picks, a ∈ R.drop s := fun a ha => List.mem_of_mem_take (hpm a ha)
-      have hnTD : (R.take s ++ R.drop s).Nodup := by rw [List.take_append_drop]; exact hnR
-      obtain ⟨hnt, _, hdis2⟩ := List.nodup_append.mp hnTD
+      have hsplit := stakeSorted_split t R hsorted
+      have hnS : (hiOf t R ++ eqOf t R ++ loOf t R).Nodup := by rw [← hsplit]; exact hnR
+      obtain ⟨hnHE, _, _⟩ := List.nodup_append.mp hnS
+      obtain ⟨hnH, hnE, hdisHE⟩ := List.nodup_append.mp hnHE
+      have hpk := hp (eqOf t R).length
+      have hpm := picks_mem _ _ hpk (min limit cs.length - quotaSize cs inPrev q - (hiOf t R).length)
+      have hpn := picks_nodup _ _ hpk (min limit cs.length - quotaSize cs inPrev q - (hiOf t R).length) hnE
+      generalize (List.map (fun j => (eqOf t R).getD j default)
+        (List.take (min limit cs.length - quotaSize cs inPrev q - (hiOf t R).length)
+          (perms (eqOf t R).length))) = picks at *
+      have hHR : ∀ a ∈ hiOf t R, a ∈ R := fun a ha => (mem_hiOf.mp ha).1
+      have hPR : ∀ a ∈ picks, a ∈ R := fun a ha => (mem_eqOf.mp (hpm a ha)).1
       constructor
       · rw [List.append_assoc]
-        refine List.nodup_append.mpr ⟨hnQ, List.nodup_append.mpr ⟨hnt, hpn, ?_⟩, ?_⟩
-        · intro a ha b hb; exact hdis2 a ha b (hpd b hb)
+        refine List.nodup_append.mpr ⟨hnQ, List.nodup_append.mpr ⟨hnH, hpn, ?_⟩, ?_⟩
+        · intro a ha b hb; exact hdisHE a ha b (hpm b hb)
         · intro a ha b hb
           rcases List.mem_append.mp hb with hb | hb
-          · exact hdis a ha b (List.mem_of_mem_take hb)
-          · exact hdis a ha b (List.mem_of_mem_drop (hpd b hb))
+          · exact hdis a ha b (hHR b hb)
+          · exact hdis a ha b (hPR b hb)
       · intro a ha
         apply hperm.subset
         rcases List.mem_append.mp ha with ha | ha
         · rcases List.mem_append.mp ha with ha | ha
           · exact List.mem_append_left _ ha
-          · exact List.mem_append_right _ (List.mem_of_mem_take ha)
-        · exact List.mem_append_right _ (List.mem_of_mem_drop (hpd a ha))
+          · exact List.mem_append_right _ (hHR a ha)
+        · exact List.mem_append_right _ (hPR a ha)
     · have : (reduceN cs limit q inPrev perms).selected = quotaNodes cs inPrev q := by
         unfold reduceN; simp only [hA, hB, ↓reduceIte]
       rw [this]
@@ -172,50 +162,22 @@ theorem reduce_stake_ordered (cs : List Node) (limit q : Nat) (inPrev : Nat → 
   · by_cases hB : quotaSize cs inPrev q < min limit cs.length
     · have hR : min limit cs.length - quotaSize cs inPrev q < (restSorted cs inPrev q).length := by
         have := quota_rest_length cs inPrev q; omega
-      obtain ⟨hsel, h1, h2, h3, h4⟩ := reduceN_tie_branch cs limit q inPrev perms _ rfl _ rfl _ rfl _ rfl hB hR
+      obtain ⟨hsel, h1, h2⟩ := reduceN_tie_closed cs limit q inPrev perms _ rfl _ rfl _ rfl _ rfl hB hR
       rw [hsel] at hd hcs
-      have hsorted : StakeSorted (restSorted cs inPrev q) := (restSorted_sorted cs inPrev q).stakeSorted
       generalize (restSorted cs inPrev q) = R at *
       generalize ((R.getD (min limit cs.length - quotaSize cs inPrev q - 1) default).stake) = t at *
-      have hsplit := stakeSorted_split t R hsorted
-      -- d lies in the first e entries of R, so its stake is ≥ t
+      -- d is above or at the cut-off stake
       have hdt : t ≤ d.stake := by
-        have hdE : d ∈ R.take ((hiOf t R).length + (eqOf t R).length) := by
-          rcases List.mem_append.mp hd with hd | hd
-          · rcases List.mem_append.mp hd with hd | hd
-            · exact absurd hd hdq
-            · have hs2 : codedStart (hiOf t R).length (eqOf t R).length ≤ (hiOf t R).length + (eqOf t R).length := by
-                omega
-              have := List.take_sublist_take_left (l := R) hs2
-              exact this.subset hd
-          · generalize codedStart (hiOf t R).length (eqOf t R).length = s at *
-            generalize (hiOf t R).length + (eqOf t R).length = e at *
-            have htl : ((R.drop s).take (e - s)).length = e - s := by
-              rw [List.length_take, List.length_drop]; omega
-            have hpk := hp (e - s)
-            rw [← htl] at hpk
-            rw [show perms (e - s) = perms (((R.drop s).take (e - s)).length) by rw [htl]] at hd
-            have := picks_mem _ _ hpk _ d hd
-            -- (R.drop s).take (e-s) ⊆ R.take e
-            have hsub : ((R.drop s).take (e - s)).Sublist (R.take e) := by
-              rw [take_split R s e (by omega)]; exact List.sublist_append_right _ _
-            exact hsub.subset this
-        rw [take_hi_eq hsorted] at hdE
-        rcases List.mem_append.mp hdE with h | h
-        · have := (mem_hiOf.mp h).2; omega
-        · have := (mem_eqOf.mp h).2; omega
-      -- c is not among the selected, hence not in hi when hi is taken entirely
+        rcases List.mem_append.mp hd with hd | hd
+        · rcases List.mem_append.mp hd with hd | hd
+          · exact absurd hd hdq
+          · have := (mem_hiOf.mp hd).2; omega
+        · have := (mem_eqOf.mp (picks_mem _ _ (hp _) _ d hd)).2; omega
+      -- c is not selected, hence not above the cut-off stake
       by_cases hct : c.stake ≤ t
       · omega
       · exfalso; apply hcs
-        have hchi : c ∈ hiOf t R := mem_hiOf.mpr ⟨hcR, by omega⟩
-        have hne : (hiOf t R).length ≠ 0 := by
-          intro h0; rw [List.eq_nil_of_length_eq_zero h0] at hchi; simp at hchi
-        have hcs' : codedStart (hiOf t R).length (eqOf t R).length = (hiOf t R).length := by
-          unfold codedStart; simp [hne]
-        rw [hcs']
-        rw [take_hi hsorted]
-        exact List.mem_append_left _ (List.mem_append_right _ hchi)
+        exact List.mem_append_left _ (List.mem_append_right _ (mem_hiOf.mpr ⟨hcR, by omega⟩))
     · exfalso; apply hdq
       have : (reduceN cs limit q inPrev perms).selected = quotaNodes cs inPrev q := by
         unfold reduceN; simp only [hA, hB, ↓reduceIte]
@@ -256,83 +218,34 @@ def TieBranch (cs : List Node) (limit q : Nat) (inPrev : Nat → Bool) : Prop :=
 instance (cs : List Node) (limit q : Nat) (inPrev : Nat → Bool) : Decidable (TieBranch cs limit q inPrev) := by
   unfold TieBranch; exact inferInstance
 
-/-
-FULL STATEMENT (false of the code, see `tie_choice_seed_only_false`):
-  theorem tie_choice_seed_only : TieBranch cs limit q inPrev →
-      (reduceN cs limit q inPrev perms).selected = seedOnlySelection cs limit q inPrev perms
-The coded search for the start of the tie range uses `s == 0` both for "not found yet" and for "found at index 0"
-(models.go:170). When no remaining candidate has more than the cut-off stake and at least two are tied, the
-range is taken to start at index 1: the tied candidate with the smallest id is selected unconditionally and
-the seed only permutes the others.
--/
-
-/-- **tie choice, proved part**: whenever some remaining candidate has more than the cut-off stake, or only one
-candidate has the cut-off stake, the selection is exactly the seed-only one. -/
-theorem tie_choice_seed_only_partial (cs : List Node) (limit q : Nat) (inPrev : Nat → Bool) (perms : Nat → List Nat)
-    (hb : TieBranch cs limit q inPrev)
-    (hgood :
-      let R := restSorted cs inPrev q
-      let t := (R.getD (min limit cs.length - quotaSize cs inPrev q - 1) default).stake
-      hiOf t R ≠ [] ∨ (eqOf t R).length ≤ 1) :
+/-- **tie_choice_seed_only** (full statement; provable since commit 51a7e0c, before it the tie range was taken to start
+at index 1 when it started at index 0 and the smallest id was always kept): whenever free places remain and do not
+suffice for all remaining candidates, the selection is the quota, every remaining candidate above the cut-off stake,
+and — among ALL candidates tied at the cut-off stake — those at the first positions of the seed's permutation. Which of
+the tied candidates are chosen therefore depends on the seed only (through `perms`), never on their ids. -/
+theorem tie_choice_seed_only (cs : List Node) (limit q : Nat) (inPrev : Nat → Bool) (perms : Nat → List Nat)
+    (hb : TieBranch cs limit q inPrev) :
     (reduceN cs limit q inPrev perms).selected = seedOnlySelection cs limit q inPrev perms := by
   obtain ⟨hB, hR⟩ := hb
-  obtain ⟨hsel, h1, h2, h3, h4⟩ := reduceN_tie_branch cs limit q inPrev perms _ rfl _ rfl _ rfl _ rfl hB hR
-  rw [hsel]
-  unfold seedOnlySelection
-  simp only at hgood ⊢
-  have hsorted : StakeSorted (restSorted cs inPrev q) := (restSorted_sorted cs inPrev q).stakeSorted
-  generalize (restSorted cs inPrev q) = R at *
-  generalize ((R.getD (min limit cs.length - quotaSize cs inPrev q - 1) default).stake) = t at *
-  have hsplit := stakeSorted_split t R hsorted
-  have hcs : codedStart (hiOf t R).length (eqOf t R).length = (hiOf t R).length := by
-    unfold codedStart
-    rcases hgood with h | h
-    · have : (hiOf t R).length ≠ 0 := fun h0 => h (List.eq_nil_of_length_eq_zero h0)
-      simp [this]
-    · split
-      · rename_i h0; rw [h0]; split <;> omega
-      · rfl
-  rw [hcs]
-  have : (hiOf t R).length + (eqOf t R).length - (hiOf t R).length = (eqOf t R).length := by omega
-  rw [this, take_hi hsorted, drop_hi_take_eq hsorted]
+  exact (reduceN_tie_closed cs limit q inPrev perms _ rfl _ rfl _ rfl _ rfl hB hR).1
 
-/-- **the defect, in general**: when no remaining candidate has more than the cut-off stake and at least two
-are tied at it, the tied candidate with the smallest id is selected whatever the seed's permutation is. -/
-theorem tie_first_forced (cs : List Node) (limit q : Nat) (inPrev : Nat → Bool) (perms : Nat → List Nat)
-    (hb : TieBranch cs limit q inPrev)
-    (R : List Node) (hRdef : R = restSorted cs inPrev q)
-    (t : Nat) (htdef : t = (R.getD (min limit cs.length - quotaSize cs inPrev q - 1) default).stake)
-    (hhi : hiOf t R = []) (h2 : 2 ≤ (eqOf t R).length) :
-    ∃ a, (eqOf t R).head? = some a ∧ (∀ b ∈ eqOf t R, a.id ≤ b.id) ∧
-      a ∈ (reduceN cs limit q inPrev perms).selected := by
+/-- the positions chosen among the tied candidates are the first `k` entries of the permutation, whatever the
+candidates' ids are: relabelling the tied candidates (any list of the same length in their place) leaves the chosen
+positions unchanged. -/
+theorem tie_positions_from_seed_only (cs : List Node) (limit q : Nat) (inPrev : Nat → Bool) (perms : Nat → List Nat)
+    (hb : TieBranch cs limit q inPrev) :
+    let R := restSorted cs inPrev q
+    let y := min limit cs.length - quotaSize cs inPrev q
+    let t := (R.getD (y - 1) default).stake
+    ∃ chosen : List Node,
+      (reduceN cs limit q inPrev perms).selected = quotaNodes cs inPrev q ++ hiOf t R ++ chosen ∧
+      chosen = ((perms (eqOf t R).length).take (y - (hiOf t R).length)).map (fun j => (eqOf t R).getD j default) ∧
+      (hiOf t R).length < y ∧ y ≤ (hiOf t R).length + (eqOf t R).length := by
   obtain ⟨hB, hR⟩ := hb
-  obtain ⟨hsel, _, _, _, _⟩ := reduceN_tie_branch cs limit q inPrev perms R hRdef _ rfl _ rfl t htdef hB (hRdef ▸ hR)
-  have hsortedR : Sorted R := hRdef ▸ restSorted_sorted cs inPrev q
-  have hsplit := stakeSorted_split t R hsortedR.stakeSorted
-  rw [hhi, List.nil_append] at hsplit
-  cases heq : eqOf t R with
-  | nil => rw [heq] at h2; simp at h2
-  | cons a rest =>
-    refine ⟨a, rfl, ?_, ?_⟩
-    · intro b hb
-      rcases List.mem_cons.mp hb with rfl | hb'
-      · omega
-      · have hs : Sorted (a :: rest ++ loOf t R) := by rw [← heq, ← hsplit]; exact hsortedR
-        have hab : le a b := (List.pairwise_cons.mp hs).1 b (List.mem_append_left _ hb')
-        have ha : a.stake = t := (mem_eqOf.mp (heq ▸ List.mem_cons_self ..)).2
-        have hbt : b.stake = t := (mem_eqOf.mp (heq ▸ hb)).2
-        unfold le at hab
-        rw [before_false_iff] at hab; omega
-    · rw [hsel, hhi]
-      have : codedStart ([] : List Node).length (eqOf t R).length = 1 := by
-        unfold codedStart; simp; omega
-      rw [this]
-      have : R.take 1 = [a] := by
-        rw [hsplit, heq]; rfl
-      rw [this]
-      exact List.mem_append_left _ (List.mem_append_right _ (List.mem_singleton.mpr rfl))
+  obtain ⟨hsel, h1, h2⟩ := reduceN_tie_closed cs limit q inPrev perms _ rfl _ rfl _ rfl _ rfl hB hR
+  exact ⟨_, hsel, rfl, h1, h2⟩
 
-/-! ### negation witness of the full statement -/
+/-! ### the former negation witness, now an instance of the theorem -/
 
 /-- six candidates of equal stake, no previous set. -/
 def eq6 : List Node := [⟨0, 10⟩, ⟨1, 10⟩, ⟨2, 10⟩, ⟨3, 10⟩, ⟨4, 10⟩, ⟨5, 10⟩]
@@ -342,25 +255,19 @@ def revPerms (k : Nat) : List Nat := (List.range k).reverse
 
 theorem revPerms_valid : ValidPerms revPerms := fun k => List.reverse_perm _
 
-/-- **negation witness** (`tie_choice_seed_only` is false of the code): six equally staked candidates, three
-places. The permutation `[5,4,3,2,1,0]` of all six picks ids 5, 4, 3; the code returns ids 0, 5, 4. -/
-theorem tie_choice_seed_only_false :
+/-- six equally staked candidates, three places, permutation `[5,4,3,2,1,0]` of all six: ids 5, 4, 3 are chosen
+(before commit 51a7e0c the code returned 0, 5, 4: the tie range started at index 1). -/
+theorem tie_range_at_index_0 :
     TieBranch eq6 3 0 (fun _ => false) ∧ ValidPerms revPerms ∧
-    (reduceN eq6 3 0 (fun _ => false) revPerms).selected ≠ seedOnlySelection eq6 3 0 (fun _ => false) revPerms ∧
-    (seedOnlySelection eq6 3 0 (fun _ => false) revPerms).map (·.id) = [5, 4, 3] ∧
-    (reduceN eq6 3 0 (fun _ => false) revPerms).selected.map (·.id) = [0, 5, 4] := by
-  refine ⟨by decide, revPerms_valid, by decide, by decide, by decide⟩
-
-/-- the same through the float front end: `xPercent = 0.35` (bits 0x3fd6666666666666), nil pool. -/
-theorem tie_choice_witness_via_reduce :
+    (reduceN eq6 3 0 (fun _ => false) revPerms).selected.map (·.id) = [5, 4, 3] ∧
     (reduce eq6 3 0x3fd6666666666666 (fun _ => false) revPerms).map (·.map fun r => r.selected.map (·.id))
-      = some (some [0, 5, 4]) := by decide
+      = some (some [5, 4, 3]) := by
+  refine ⟨by decide, revPerms_valid, by decide, by decide⟩
 
 /-! ### non-vacuity and samples -/
 
--- the partial theorem's hypotheses are met by a concrete non-trivial call (a higher-staked candidate in front)
+-- the theorem's hypothesis is met by concrete non-trivial calls (tie range at index 0 above; here at index 1)
 example : TieBranch (⟨9, 20⟩ :: eq6) 3 0 (fun _ => false) := by decide
-example : hiOf 10 (restSorted (⟨9, 20⟩ :: eq6) (fun _ => false) 0) ≠ [] := by decide
 example : (reduceN (⟨9, 20⟩ :: eq6) 3 0 (fun _ => false) revPerms).selected.map (·.id) = [9, 5, 4] := by decide
 -- a call with a previous set, a quota of 2 of its 3 members, ties inside and outside it
 example : (reduceN [⟨1, 5⟩, ⟨2, 5⟩, ⟨3, 5⟩, ⟨4, 7⟩, ⟨5, 5⟩, ⟨6, 5⟩, ⟨7, 1⟩] 4 2 (fun i => i ≤ 3) revPerms).selected.map (·.id)
